@@ -52,6 +52,12 @@ def rule_token_conv(ctx: Ctx, rid="C05.TOKEN-CONV", only_tokens=None, floor=2):
         harmless = ("partition", "rpartition", "isdigit", "isdecimal", "startswith", "endswith", "count", "find", "index")
         extra_calls = [c for c in a.other_calls if c not in ("int", "float", "str", "len") and c.split(".")[-1] not in harmless]
         ok = ok and not extra_calls
+        if not ok and a.returns_token and not a.returns_none and retyped_ok and \
+                ctx.pipeline.token_value_src.get(r.name) == f"{r.name}[1:-1]":
+            # whatever the spelling (slices, removeprefix/removesuffix of the token's own delimiter), the interpreted action yields
+            # the matched text without its first and last character
+            ok = True
+            rew = [f"{r.name}[1:-1] (interpreted)"]
         ctx.rep.check(ok, rid, con, f"value = {rew[0]} (exact conversion of the matched text)" if ok else
                       f"the literal's token value is produced by {rew} with calls {a.other_calls}: more than the conversion / "
                       "delimiter stripping (literal content is rewritten)", site=r.site, text=f"{r.name}: {rew} {sorted(set(a.other_calls))}")
@@ -129,6 +135,15 @@ def _check(rep):
     LR.rule_string_alphabet(ctx)
     rule_grammar_literals(ctx)
     PR.rule_compiles(ctx, rid="C05.SHAPE-COMPILES", strict=False)
+    # a literal of extreme magnitude must reach run time like any other: a compile step that raises on it loses the literal
+    n_big = 0
+    for o in ctx.outcomes():
+        if o.status == "raises" and ("beyond the float range" in o.prog.label or "overflowing decimal" in o.prog.label):
+            n_big += 1
+            if n_big <= 3:
+                rep.bad("C05.EXTREME-LITERALS-COMPILE", f"codegen|models <- {o.prog.label}",
+                        f"compiling an experiment with this literal raises ({o.error[:160]}): integers of any magnitude and decimals beyond "
+                        "the float range are values of the language", text=f"{o.error.split(' at ')[0]}|{o.prog.label}")
     from . import evalrules as ER_
     # the literal that reaches run time is the literal written: the text is lexed as it was given
     ER_.rule_text_unmodified(ctx, rid="C05.TEXT-UNMODIFIED")
